@@ -587,6 +587,133 @@ def render_list() -> str:
     return "\n".join(lines)
 
 
+# ---------------------------------------------------------------------------------------------
+# the small validators -> Koda.WStmt (lean/KodaModel/PyWrap.lean)
+
+OUT_WRAP = os.path.join(os.path.dirname(OUT), "WrapSrc.lean")
+WSELF = {"validator": "validator", "_validator_sync": "validatorSync", "_validator_async": "validatorAsync", "coerce": "coerce"}
+WATTRS = {"val": "valA", "is_valid": "isValid", "is_just": "isJust", "compatible_types": "compatibleTypes",
+          "validate_async": "validateAsync"}
+
+
+class WTr:
+    def __init__(self, param: str):
+        self.param = param
+
+    def exp(self, e: ast.expr) -> str:
+        if isinstance(e, ast.Name):
+            if e.id == self.param:
+                return ".val"
+            if e.id == "self":
+                return ".self"
+            if e.id == "result":
+                return "(.var .result)"
+            if e.id == "nothing":
+                return ".nothing"
+            if e.id == "dict":
+                return ".dictTy"
+        if isinstance(e, ast.Constant):
+            if e.value is None:
+                return ".noneLit"
+            if isinstance(e.value, bool):
+                return f"(.bool {'true' if e.value else 'false'})"
+        if isinstance(e, ast.Await):
+            return f"(.await {self.exp(e.value)})"
+        if isinstance(e, ast.Tuple) and len(e.elts) == 2:
+            return f"(.pair {self.exp(e.elts[0])} {self.exp(e.elts[1])})"
+        if (isinstance(e, ast.Subscript) and isinstance(e.slice, ast.Constant) and isinstance(e.slice.value, int)
+                and not isinstance(e.slice.value, bool) and e.slice.value >= 0):
+            return f"(.subscript {self.exp(e.value)} {e.slice.value})"
+        if isinstance(e, ast.Subscript) and ast.unparse(e) == "Maybe[Any]":
+            return ".maybeAnyTy"
+        if isinstance(e, ast.Compare) and len(e.ops) == 1 and isinstance(e.ops[0], ast.Is):
+            l, r = e.left, e.comparators[0]
+            if (isinstance(l, ast.Call) and isinstance(l.func, ast.Name) and l.func.id == "type" and len(l.args) == 1
+                    and not l.keywords and isinstance(r, ast.Name) and r.id == "Just"):
+                return f"(.typeIsJust {self.exp(l.args[0])})"
+            return f"(.is_ {self.exp(l)} {self.exp(r)})"
+        if isinstance(e, ast.Attribute):
+            if isinstance(e.value, ast.Name) and e.value.id == "self":
+                a = f".{WSELF[e.attr]}" if e.attr in WSELF else f"(.other {lstr(e.attr)})"
+                return f"(.selfAttr {a})"
+            a = f".{WATTRS[e.attr]}" if e.attr in WATTRS else f"(.other {lstr(e.attr)})"
+            return f"(.attr {self.exp(e.value)} {a})"
+        if isinstance(e, ast.Call) and not e.keywords and not any(isinstance(a, ast.Starred) for a in e.args):
+            f, args = e.func, e.args
+            if isinstance(f, ast.Name):
+                if f.id == "type" and len(args) == 1 and isinstance(args[0], ast.Constant) and args[0].value is None:
+                    return ".noneTy"
+                if f.id == "isinstance" and len(args) == 2 and isinstance(args[1], ast.Name) and args[1].id == "dict":
+                    return f"(.isInstDict {self.exp(args[0])})"
+                table = {"Just": ("justOf", 1), "Valid": ("validOf", 1), "TypeErr": ("mkTypeErr", 1),
+                         "ContainerErr": ("mkContainerErr", 1), "CoercionErr": ("mkCoercionErr", 2), "Invalid": ("mkInvalid", 3)}
+                if f.id in table and len(args) == table[f.id][1]:
+                    return f"(.{table[f.id][0]} {' '.join(self.exp(a) for a in args)})"
+                return f"(.unsupported {lstr(ast.dump(e)[:160])})"
+            if len(args) == 0:
+                return f"(.call0 {self.exp(f)})"
+            if len(args) == 1:
+                return f"(.call1 {self.exp(f)} {self.exp(args[0])})"
+        return f"(.unsupported {lstr(ast.dump(e)[:160])})"
+
+    def stmt(self, s: ast.stmt) -> str:
+        if isinstance(s, ast.Assign) and len(s.targets) == 1 and isinstance(s.targets[0], ast.Name) and s.targets[0].id == "result":
+            return f"(.assign .result {self.exp(s.value)})"
+        if isinstance(s, ast.If):
+            return f"(.ite {self.exp(s.test)} {self.block(s.body)} {self.block(s.orelse)})"
+        if isinstance(s, ast.Return) and s.value is not None:
+            return f"(.ret {self.exp(s.value)})"
+        return f"(.unsupported {lstr(ast.dump(s)[:160])})"
+
+    def block(self, body: List[ast.stmt]) -> str:
+        body = [s for s in body if not (isinstance(s, ast.Expr) and isinstance(s.value, ast.Constant))]
+        return "[" + ", ".join(self.stmt(s) for s in body) + "]"
+
+
+WRAP_TARGETS = [("maybe.py", "MaybeValidator", "_validate_to_tuple", "maybeSync"),
+                ("maybe.py", "MaybeValidator", "_validate_to_tuple_async", "maybeAsync"),
+                ("dictionary.py", "KeyNotRequired", "__call__", "knrSync"),
+                ("dictionary.py", "KeyNotRequired", "validate_async", "knrAsync"),
+                ("generic.py", "Lazy", "__call__", "lazySync"),
+                ("generic.py", "Lazy", "validate_async", "lazyAsync"),
+                ("generic.py", "AlwaysValid", "_validate_to_tuple", "alwaysSync"),
+                ("generic.py", "AlwaysValid", "_validate_to_tuple_async", "alwaysAsync"),
+                ("none.py", "NoneValidator", "_validate_to_tuple", "noneSync"),
+                ("dictionary.py", "IsDictValidator", "_validate_to_tuple", "isDictSync")]
+WRAP_PINS = [("none.py", "NoneValidator", "_validate_to_tuple_async"), ("dictionary.py", "IsDictValidator", "_validate_to_tuple_async"),
+             ("maybe.py", "MaybeValidator", "__init__")]
+
+
+def _find_method(fn: str, cls: str, meth: str):
+    tree = ast.parse(open(os.path.join(PKG, fn)).read())
+    for node in tree.body:
+        if isinstance(node, ast.ClassDef) and node.name == cls:
+            for item in node.body:
+                if isinstance(item, (ast.FunctionDef, ast.AsyncFunctionDef)) and item.name == meth:
+                    return item
+    return None
+
+
+def render_wrap() -> str:
+    lines = ["/- GENERATED by harness/pysrc.py from the current source of /repo/koda_validate — do not edit -/",
+             "import KodaModel.PyWrap", "", "namespace Koda.Src", ""]
+    for fn, cls, meth, name in WRAP_TARGETS:
+        m = _find_method(fn, cls, meth)
+        if m is None or len(m.args.args) != 2 or m.decorator_list:
+            term = '[.unsupported "not found / signature"]'
+        else:
+            term = WTr(m.args.args[1].arg).block(m.body)
+        lines += [f"def {name} : List WStmt :=", f"  {term}", ""]
+    pins = []
+    for fn, cls, meth in WRAP_PINS:
+        m = _find_method(fn, cls, meth)
+        pins.append(f"{cls}.{meth}: " + (" ; ".join(ast.unparse(b) for b in m.body
+                                                   if not (isinstance(b, ast.Expr) and isinstance(b.value, ast.Constant)))
+                                        if m is not None else "<not found>"))
+    lines += ["def wrapPins : List String := [" + ", ".join(lstr(x) for x in pins) + "]", "", "end Koda.Src", ""]
+    return "\n".join(lines)
+
+
 def render() -> str:
     found = collect()
     lines = ["/- GENERATED by harness/pysrc.py from the current source of /repo/koda_validate — do not edit -/",
@@ -605,7 +732,7 @@ def render() -> str:
 
 def regenerate() -> bool:
     changed = False
-    for path, new in ((OUT, render()), (OUT_COERCE, render_coerce()), (OUT_SCALAR, render_scalar()), (OUT_UNION, render_union()), (OUT_LIST, render_list())):
+    for path, new in ((OUT, render()), (OUT_COERCE, render_coerce()), (OUT_SCALAR, render_scalar()), (OUT_UNION, render_union()), (OUT_LIST, render_list()), (OUT_WRAP, render_wrap())):
         old = open(path).read() if os.path.exists(path) else None
         if new != old:
             with open(path, "w") as f:
